@@ -161,7 +161,7 @@ pub fn gen_set(r: &mut Rng, c: SetCfg) -> Vec<TFile> {
         let mut blocks = vec![];
         let mut own: Vec<(u32, u32)> = vec![];
         for _ in 0..nb {
-            let nst = (1 + r.below(8) as usize) * deep;
+            let nst = if !blocks.is_empty() && r.chance(1, 12) { 0 } else { (1 + r.below(8) as usize) * deep };
             let mut orig = next_free;
             if c.overlaps && !placed.is_empty() && r.chance(1, 4) {
                 let (ps, pl) = *r.pick(&placed);
